@@ -399,3 +399,37 @@ def add_value_variants(g, gx):
     stmts = [lambda gx, m: OP(m), lambda gx, m: A.Compound([OP(m, "s")], co(m)), lambda gx, m: A.Compound(None, co(m))]
     for nt in ("statement", "pragmacomp-or-statement"):
         g.nts[nt].value_variants = stmts
+    # specifier lists: plain int / typedef storage / an _Atomic(const int *) type specifier / a struct specifier
+    from spec.grammar_decl import new_spec
+
+    def spec_int(m):
+        sp = new_spec()
+        sp["type"] = [A.IdentifierType(["int"], co(m))]
+        return sp
+
+    def spec_typedef(m):
+        sp = spec_int(m)
+        sp["storage"] = ["typedef"]
+        return sp
+
+    def spec_atomic(m):
+        sp = new_spec()
+        sp["qual"] = ["volatile"]
+        inner = A.PtrDecl(["restrict"], A.TypeDecl(None, ["const"], None, A.IdentifierType(["int"], co(m)), co(m)), co(m))
+        sp["type"] = [A.Typename(None, ["const", "_Atomic"], None, inner, co(m))]
+        return sp
+
+    def spec_two(m):
+        sp = new_spec()
+        sp["type"] = [A.IdentifierType(["unsigned"], co(m)), A.IdentifierType(["long"], co(m))]
+        sp["storage"] = ["static"]
+        sp["function"] = ["inline"]
+        return sp
+    g.nts["declaration-specifiers"].value_variants = [lambda gx, m: (spec_int(m), True, co(m)), lambda gx, m: (spec_typedef(m), True, co(m)),
+                                                      lambda gx, m: (spec_atomic(m), True, co(m)), lambda gx, m: (spec_two(m), True, co(m))]
+    def spec_align_only(m):
+        sp = new_spec()
+        sp["alignment"] = [A.Alignas(A.Constant("int", "8", co(m)), co(m))]
+        return sp
+    g.nts["specifier-qualifier-list"].value_variants = [lambda gx, m: spec_int(m), lambda gx, m: spec_atomic(m), lambda gx, m: spec_two(m),
+                                                        lambda gx, m: spec_align_only(m)]
